@@ -240,3 +240,61 @@ func methodsOf(p *ssa.Package) []*ssa.Function {
 	}
 	return out
 }
+
+// constFuncGlobal: a package-level variable of function type that is assigned exactly
+// once in the whole loaded program, by its own package initializer, with a named
+// function (e.g. `var NewDecoder = api.NewDecoder`).  A call through it is a call of
+// that function.  (The single-assignment scan covers every package loaded from /repo; a
+// third package assigning the exported variable at run time is outside the model and is
+// listed as a note.)
+func (e *Engine) constFuncGlobal(g *ssa.Global) *ssa.Function {
+	e.cfgMu.Lock()
+	defer e.cfgMu.Unlock()
+	if e.cfgCache == nil {
+		e.cfgCache = map[*ssa.Global]*ssa.Function{}
+	}
+	if fn, ok := e.cfgCache[g]; ok {
+		return fn
+	}
+	var found *ssa.Function
+	stores := 0
+	scan := func(f *ssa.Function) {
+		for _, b := range f.Blocks {
+			for _, in := range b.Instrs {
+				st, ok := in.(*ssa.Store)
+				if !ok || st.Addr != ssa.Value(g) {
+					continue
+				}
+				stores++
+				v := st.Val
+				if ct, ok := v.(*ssa.ChangeType); ok {
+					v = ct.X
+				}
+				if fn, ok := v.(*ssa.Function); ok && f.Synthetic != "" && f.Name() == "init" && f.Pkg == g.Pkg {
+					found = fn
+				} else {
+					found = nil
+					stores += 100
+				}
+			}
+		}
+	}
+	for _, p := range e.prog.AllPackages() {
+		for _, m := range p.Members {
+			if fn, ok := m.(*ssa.Function); ok {
+				scan(fn)
+				for _, a := range fn.AnonFuncs {
+					scan(a)
+				}
+			}
+		}
+		for _, mth := range methodsOf(p) {
+			scan(mth)
+		}
+	}
+	if stores != 1 {
+		found = nil
+	}
+	e.cfgCache[g] = found
+	return found
+}
